@@ -632,6 +632,8 @@ fn trace_line_inner(c: &Case) -> String {
     let res = c.run_on(&mut g);
     let recs = verif::trace_take();
     verif::graph_stop();
+    let mut valids: Vec<String> = Vec::new();
+    let mut pending_valid: Option<String> = None;
     let mut graph_digs: Vec<String> = Vec::new();
     let mut graph_final = String::from("-");
     let mut steps = String::new();
@@ -648,7 +650,9 @@ fn trace_line_inner(c: &Case) -> String {
     for r in &recs {
         match r {
             Rec::Target { target: t, pre } => target = format!("{}@{}", t, snap(pre)),
+            Rec::Valid { ops } => pending_valid = Some(if ops.is_empty() { "e".to_string() } else { hex(ops) }),
             Rec::Op { op, arg, pre } => {
+                valids.push(pending_valid.take().unwrap_or_else(|| "-".to_string()));
                 if !steps.is_empty() {
                     steps.push(';');
                 }
@@ -716,9 +720,10 @@ fn trace_line_inner(c: &Case) -> String {
         String::new()
     };
     format!(
-        "trace {}{} target={} bodyend={} mutated={} rewritten={} nv={} nm={} final={} steps={} result={}",
+        "trace {}{} valid={} target={} bodyend={} mutated={} rewritten={} nv={} nm={} final={} steps={} result={}",
         c.line(),
         graph,
+        if valids.is_empty() { "-".to_string() } else { valids.join(",") },
         target,
         bodyend,
         mutated,
